@@ -493,6 +493,9 @@ def run(facts, chk, tier, only=None):
     from . import e2e2
     chk.guard('C09.e2e', 'C09.e2e:run-empty', lambda: e2e2.check_merge_empty(facts, chk, 'C09.e2e', tier))
     chk.guard('C09.e2e', 'C09.e2e:run-merge', lambda: e2e2.check_merge_e2e(facts, chk, 'C09.e2e', 'quick'))
+    # a reloaded file may carry counts of any earlier mode: every operation recounts (tables with arbitrary stored counts)
+    from . import tableops
+    chk.guard('C09.func', 'C09.func:filter:run', lambda: tableops.check_filter(facts, chk, 'C09.func', 'quick'))
     chk.guard('C09.cli', 'C09.cli:run1', lambda: cli_e2e.check_map(facts, chk, 'C09.cli', tier, 'Aln'))
     chk.guard('C09.cli', 'C09.cli:run2', lambda: cli_e2e.check_weed(facts, chk, 'C09.cli', tier))
     chk.guard('C09.cli', 'C09.cli:run3', lambda: cli_e2e.check_merge_delete(facts, chk, 'C09.cli', tier, 'delete'))
